@@ -552,7 +552,12 @@ def check(prop, tier, seed, replay=None):
     known_hits = {}
     for p in problems:
         if p["kind"] == "judge":
-            cl = classify(p)
+            import inspect
+            try:
+                nargs = len(inspect.signature(classify).parameters)
+            except (TypeError, ValueError):
+                nargs = 1
+            cl = classify(ctx, p) if nargs >= 2 else classify(p)
             k = next((k for k in known if k["class"] == cl), None) if cl else None
             if k:
                 known_hits.setdefault(cl, (k, p))
